@@ -2410,7 +2410,7 @@ func (s *Sim) event(fr *Frame, st *State, ev string, in ssa.Instruction) {
 	}
 	for i := range s.T.Sections {
 		r := &s.T.Sections[i]
-		if r.To == ev && (r.Func == "" || r.Func == fn) {
+		if r.To == ev && (r.Func == "" || r.Func == fn || (strings.HasSuffix(r.Func, "*") && strings.HasPrefix(fn, strings.TrimSuffix(r.Func, "*")))) {
 			lk, has := st.marks[r.ID]
 			ok := false
 			if has {
@@ -2483,7 +2483,7 @@ func (s *Sim) clearMarks(st *State, lockKey string) {
 
 func frameHas(fr *Frame, name string) bool {
 	for f := fr; f != nil; f = f.Parent {
-		if FuncName(f.Fn) == name {
+		if FuncName(f.Fn) == name || (strings.HasSuffix(name, "*") && strings.HasPrefix(FuncName(f.Fn), strings.TrimSuffix(name, "*"))) {
 			return true
 		}
 	}
